@@ -15,6 +15,7 @@ import (
 	"os"
 	"path/filepath"
 	"runtime"
+	"runtime/pprof"
 	"sort"
 	"strconv"
 	"strings"
@@ -58,8 +59,17 @@ var lastProgress atomic.Int64
 func watchdog(limit time.Duration) {
 	lastProgress.Store(time.Now().UnixNano())
 	go func() {
+		tick := 0
 		for {
 			time.Sleep(time.Second)
+			var ms runtime.MemStats
+			if tick++; tick%5 == 0 {
+				runtime.ReadMemStats(&ms)
+				if ms.HeapInuse > 3<<30 {
+					fmt.Fprintf(os.Stderr, "simharness: watchdog: the worker holds %d MiB of heap (a leak in the machinery or a run-away allocation); giving up\n", ms.HeapInuse>>20)
+					os.Exit(3)
+				}
+			}
 			if time.Since(time.Unix(0, lastProgress.Load())) > limit {
 				fmt.Fprintf(os.Stderr, "simharness: watchdog: a single run exceeded %v of wall time\n", limit)
 				os.Exit(3)
@@ -366,6 +376,14 @@ func cmdRun(args []string) {
 		break
 	}
 	res.WallS = time.Since(t0).Seconds()
+	if hp := os.Getenv("VERIF_HEAPPROF"); hp != "" {
+		runtime.GC()
+		if f, err := os.Create(hp); err == nil {
+			pprof.WriteHeapProfile(f)
+			f.Close()
+		}
+		fmt.Fprintf(os.Stderr, "goroutines at exit: %d\n", runtime.NumGoroutine())
+	}
 	// hash file
 	if *result != "" {
 		hf := *result + ".hashes"
